@@ -185,7 +185,18 @@ theorem progNet_inc_dec (c : Nat) (prog : List Cmd) (h : ∀ x ∈ prog, x = .in
     have := ih (fun y hy => h y (by simp [hy]))
     simp only [progNet, List.map_cons, List.sum_cons] at this ⊢
     rcases h x (by simp) with rfl | rfl <;>
-      simp [cmdNet, indI, List.count_cons, this] <;> omega
+      simp [cmdNet, indI, this] <;> omega
+
+/-- **counter_linear** as in the property statement: threads that together perform `n`
+`pre_increment`s and `m` `pre_decrement`s of a counter change it by `n - m`, in any interleaving. -/
+theorem counter_linear_n_m (cfg : Cfg) (progs : List (List Cmd)) (sched : List Nat) (c : Nat)
+    (honly : ∀ p ∈ progs, ∀ x ∈ p, x = .inc c ∨ x = .dec c)
+    (hdone : ∀ th ∈ (run cfg (init progs) sched).threads, th.pc = .idle ∧ th.prog = []) :
+    (run cfg (init progs) sched).mem.ctr c
+      = ((progs.map fun p => ((p.count (.inc c) : Nat) : Int) - ((p.count (.dec c) : Nat) : Int)).sum : Int) := by
+  rw [counter_linear cfg progs sched c hdone]
+  congr 1
+  exact List.map_congr_left (fun p hp => progNet_inc_dec c p (honly p hp))
 
 /-- non-vacuity: 2 increments and 1 decrement from two threads, plus two racing `LockFree::add`s
 (one compare-exchange fails and is retried) -/
